@@ -68,6 +68,14 @@ MISSED = [
  ("C13-i (one-shot Parquet `write()` keeps the frame's index)", "writers were only fed through `append_data`", "one-shot `write()` of mask-selected / re-ordered frames, read back whole and in chunks"),
  ("C15-i (protein level built from the level before it instead of the peptide level)", "no further roll-up levels together with proteins", "a third of the C15 file tables carry PeptideGroup (and ModifiedPeptide) columns"),
  ("C16-i (`decoy_prefix` not handed on: decoys listed as targets)", "only the pairing of targets was checked", "`decoy_listed_as_target` clause in the grouping oracle"),
+ ("C03-j (`groupby(...).first()` fills a winner's empty cell from a loser)", "no missing metadata cells", "a quarter of the PSMs of every third C03 table have no protein annotation"),
+ ("C04-j (stable per-chunk sort: file order decides exact ties)", "label-sorted files only with the competitors in different chunks", "`targets_first_one_chunk` class"),
+ ("C07-j (`Series[0]` is a label lookup: learned scores compared with the first fold's count)", "needs learned scores between the first fold's and the best fold's count", "caught by the thorough tier only (`overfit` learner, 4 folds); recorded as such"),
+ ("C09-j (`os.open` without `O_TRUNC` for `<pin>.tsv`)", "leftover conversions were never longer than the new one", "`longer_foreign` leftover"),
+ ("C13-j (buffer aliases the caller's first frame)", "a fresh frame per append", "callers that refill one scratch frame in place for equal-sized batches"),
+ ("C14-j (head values kept in an integer-typed numpy array)", "floats always written with a decimal point; no integer-valued heads", "`inthead` inputs + `%.17g` text files (inputs whose inferred types differ are refused by the merger itself and counted)"),
+ ("C18-j (records split on a bare `>`)", "descriptions never contained `>`", "descriptions such as `5'->3' exonuclease` and merged deflines"),
+ ("C20-j (`splitext` on the run's base name)", "run names had no dots besides the extension", "run names like `run_0_1_0.5ug`, `run.v2`"),
  ("C12-d (new scoring block size, last row unscored when n % size == 1)", "the constant did not exist when the monitors were written; tables are far smaller than its default", "tunables are discovered in `mokapot.constants` at run time; C05 adds a variant per discovered constant, C12 a metamorphic refit under small values of it"),
 ]
 seed_rows = ["| seeded change | needs | result |", "|---|---|---|"]
